@@ -92,6 +92,23 @@ def make_cases(rng, n):
         f = gen_doc.plant_fault(rng, faulted, kind)
         if f is None:
             continue
+        if f.binding is not None and (len(cases) // len(KINDS)) % 2 == 0:
+            # half of the binding faults are steered (rejection sampling) onto a layout child that carries attached bindings
+            # and is followed by an auto-flow sibling: there a loss of the object's layout instructions moves other objects
+            def exposed(ft):
+                o = ft.obj
+                if not any(getattr(b, "attached", False) for b in o.bindings if b is not ft.binding):
+                    return False
+                sib = o.parent.children if o.parent is not None else []
+                later = sib[sib.index(o) + 1:] if o in sib else []
+                return any(not any(getattr(b, "attached", False) for b in c.bindings) for c in later)
+            for _ in range(12):
+                if exposed(f):
+                    break
+                f2d = copy.deepcopy(base)
+                f2 = gen_doc.plant_fault(rng, f2d, kind)
+                if f2 is not None and f2.binding is not None:
+                    faulted, f = f2d, f2
         if f.binding is None:
             # reference document: the same document without the faulty object
             if referenced_outside(faulted, f.obj):
